@@ -210,6 +210,7 @@ const char *const hx_kinds[] = {
 };
 const int hx_nkinds = (int) (sizeof(hx_kinds) / sizeof(hx_kinds[0]));
 
+int hx_docsis_shape = -1; /* DOCSIS+CRC32: 0 cipher without CRC, 1 CRC without cipher, 2 both, -1 random */
 int hx_len_long; /* when set: lengths 520..3520 */
 long hx_force_len = -1; /* when >= 0 every generated message length is this value (rounded to the mode's granularity) */
 
@@ -348,6 +349,20 @@ spec_fill(const cdesc *c, const hdesc *h, int dir, int order_override, hx_rng *r
                                 sp->coff = sp->hoff + 12;
                                 sp->len = frame - 12 + 4;
                                 sp->inplace = 1;
+                                if (hx_force_len < 0 || hx_docsis_shape >= 0) {
+                                        /* the two other valid shapes: cipher without CRC (hash length 0) and
+                                         * CRC without cipher (cipher length 0) */
+                                        uint32_t shape = hx_below(r, 8);
+                                        if (hx_docsis_shape >= 0)
+                                                shape = (uint32_t) hx_docsis_shape;
+                                        if (shape == 0) {
+                                                sp->hlen = 0;
+                                                sp->hoff = 0;
+                                                sp->coff = hx_below(r, 3) ? 0 : hx_below(r, 24);
+                                                sp->len = 1 + hx_below(r, hx_below(r, 2) ? 64 : 1500);
+                                        } else if (shape == 1)
+                                                sp->len = 0;
+                                }
                                 break;
                         }
                         }
@@ -854,6 +869,15 @@ out_bytes(const hx_job *j)
         return j->dst_size;
 }
 
+/* DOCSIS+CRC32 computes a CRC only for a hash range of at least one minimal Ethernet PDU (14 bytes);
+ * below that no CRC is requested and what the tag buffer holds afterwards is not an output (the C
+ * managers leave it alone, the AVX512 assembly stores its running CRC state) */
+int
+hx_tag_defined(const hx_spec *sp)
+{
+        return !(sp->ha == IMB_AUTH_DOCSIS_CRC32 && sp->hlen < 14);
+}
+
 int
 hx_job_cmp_out(const hx_job *a, const hx_job *b)
 {
@@ -870,7 +894,7 @@ hx_job_cmp_out(const hx_job *a, const hx_job *b)
                 } else if (memcmp(a->dst, b->dst, n) != 0)
                         d |= 1;
         }
-        if (a->tag && b->tag && a->sp.taglen && memcmp(a->tag, b->tag, a->sp.taglen) != 0)
+        if (a->tag && b->tag && a->sp.taglen && hx_tag_defined(&a->sp) && memcmp(a->tag, b->tag, a->sp.taglen) != 0)
                 d |= 2;
         if (a->next_iv && b->next_iv && memcmp(a->next_iv, b->next_iv, 16) != 0)
                 d |= 4;
